@@ -599,6 +599,8 @@ class FileSystem(SimComponent):
         self.deleted_folders.pop(folder.uuid, None)
         folder.restore()
         self.folders[folder.uuid] = folder
+        # requests addressed to this folder name must reach the restored folder, not a later (deleted) folder of that name
+        self._folder_request_manager.add_request(name=folder.name, request_type=RequestType(func=folder._request_manager))
         return True
 
     def restore_file(self, folder_name: str, file_name: str) -> bool:
